@@ -539,6 +539,21 @@ Definition detach_step (g : graph) (k : N) : graph :=
       flag_after_sources (flag_with_products g2 k) k
   end.
 
+(* File.detach (Node.detach on a file node) *)
+Definition detach_file (g : graph) (k : N) : graph :=
+  match find_file g k with
+  | None => g
+  | Some f0 =>
+      match f_creator f0 with
+      | None => g
+      | Some _ =>
+          let sub := below g k in
+          let g1 := set_detached_nodes g [k] true in
+          let g1' := with_files g1 (map (fun f => if f_key f =? k then set_fplace f true None else f) (g_files g1)) in
+          if f_detached f0 then g1' else set_detached_nodes g1' sub true
+      end
+  end.
+
 (* Step.reattach to creator c (detached flag inherited from c: cdet) *)
 Definition reattach_step (g : graph) (k c : N) (cdet : bool) : graph :=
   let g0 := set_detached_nodes g [k] cdet in
@@ -654,3 +669,72 @@ Definition creator_rank_b (g : graph) (rank : N -> nat) : bool :=
 Definition need_rank_b (g : graph) (rank : N -> nat) : bool :=
   forallb (fun k => forallb (fun y => (rank y <? rank k)%nat) (cons_keys g k)) (map d_src (g_deps g))
   && forallb (fun k => (rank k <? length (g_steps g))%nat) (attached_keys g).
+
+(* ------------------------------------------------------------------------------------------ *)
+(* Sequences of primitive mutations (what a composite operation of workflow.py / step.py does   *)
+(* to the tables this model reads)                                                             *)
+(* ------------------------------------------------------------------------------------------ *)
+
+Inductive prim :=
+| PSetState (k st : N) (df : bool)
+| PHold (k : N)
+| PRelease (k : N)
+| PInsDep (d : dep)
+| PDelDep (d : dep)
+| PSetFileState (k st : N) (h : bool)
+| PDetach (k : N)
+| PDetachFile (k : N)
+| PReattach (k c : N) (cdet : bool)
+| PCreate (k : N) (creator : option N) (det : bool) (need : N) (safe stored : bool) (dur : N)
+          (res : list (str * N)).
+
+Definition apply_prim (g : graph) (p : prim) : option graph :=
+  match p with
+  | PSetState k st df => Some (set_step_state g k st df)
+  | PHold k => Some (hold_step g k)
+  | PRelease k => release_step g k
+  | PInsDep d => Some (ins_dep g d)
+  | PDelDep d => Some (del_dep g d)
+  | PSetFileState k st h => Some (set_file_state g k st h)
+  | PDetach k => Some (detach_step g k)
+  | PDetachFile k => Some (detach_file g k)
+  | PReattach k c cdet => Some (reattach_step g k c cdet)
+  | PCreate k cr det need safe stored dur res => Some (create_step g k cr det need safe stored dur res)
+  end.
+
+Fixpoint run_prims (g : graph) (l : list prim) : option graph :=
+  match l with
+  | [] => Some g
+  | p :: r => match apply_prim g p with Some g1 => run_prims g1 r | None => None end
+  end.
+
+(* decidable side conditions of the primitives (PCreate is not covered: it needs a rank) *)
+Definition outputs_owned_b (g : graph) (S : list N) : bool :=
+  forallb (fun d => match find_file g (d_snk d) with
+                    | Some f => implb (mem_N (f_key f) S) (mem_N (d_src d) S)
+                    | None => true end) (g_deps g).
+Definition no_edge_into_b (g : graph) (S : list N) : bool :=
+  forallb (fun d => match find_file g (d_snk d) with
+                    | Some f => negb (mem_N (f_key f) S)
+                    | None => true end) (g_deps g).
+
+Definition prim_ok_b (g : graph) (p : prim) : bool :=
+  match p with
+  | PSetState _ _ _ | PHold _ | PRelease _ | PInsDep _ | PDelDep _ => true
+  | PSetFileState k st _ =>
+      forallb (fun f => negb (f_key f =? k) || Bool.eqb (f_state f =? FS_VOLATILE) (st =? FS_VOLATILE)) (g_files g)
+  | PDetach k =>
+      forallb (fun f => negb (f_key f =? k)) (g_files g) && outputs_owned_b g (k :: below g k)
+  | PDetachFile k =>
+      forallb (fun s => negb (mem_N (s_key s) (k :: below g k))) (g_steps g) && no_edge_into_b g (k :: below g k)
+  | PReattach k _ cdet =>
+      outputs_owned_b g (k :: below g k)
+      && (negb cdet || forallb (fun s => negb (mem_N (s_key s) (k :: below g k)) || s_detached s) (g_steps g))
+  | PCreate _ _ _ _ _ _ _ _ => false
+  end.
+
+Fixpoint run_ok_b (g : graph) (l : list prim) : bool :=
+  match l with
+  | [] => true
+  | p :: r => prim_ok_b g p && match apply_prim g p with Some g1 => run_ok_b g1 r | None => true end
+  end.
